@@ -131,6 +131,7 @@ def apply(unit_facts, log=None):
             known = inv["functions"].get(fd["file"], {}).get(fd.get("inv_name", fd["name"]))
             _propagate_new_locals(fd, known, log)
             _cancel_addr_deref(fd, log)
+            _fold_offset_subscripts(fd, log)
             _expand_flag_branches(fd, log)
             if known is not None and known.get("switches", 0) > sum(1 for b in fd["blocks"]
                                                                      if (b.get("term") or {}).get("kind") == "SwitchStmt"):
@@ -503,6 +504,83 @@ def _cancel_addr_deref(fd, log):
                 n += 1
     if n:
         log.add("N9", "%s(): %d `*&x` / `(&s)->m` read as `x` / `s.m`" % (fd["name"], n))
+
+
+# --------------------------------------------------------------------------
+# N10 `(q + c)[k]` is `q[c + k]` (what N4 leaves behind for a new cursor `p = q + c` used as `p[k]`)
+
+def _fold_offset_subscripts(fd, log):
+    exprs = fd["exprs"]
+    n = 0
+
+    def const_of(i):
+        k = 0
+        while i is not None and i >= 0 and k < 10:
+            e = exprs[i]
+            if isinstance(e.get("v"), int):
+                return e["v"]
+            if e["k"] in ("cast", "paren") and e.get("c"):
+                i = e["c"][0]
+            else:
+                return None
+            k += 1
+        return None
+
+    def set_const(i, v):
+        k = 0
+        while i is not None and i >= 0 and k < 10:
+            e = exprs[i]
+            if "v" in e:
+                e["v"] = v
+            if e["k"] in ("cast", "paren") and e.get("c"):
+                i = e["c"][0]
+            else:
+                if e["k"] == "ref":          # an enumerator: becomes a plain literal
+                    t = {k2: e[k2] for k2 in ("line", "t", "it") if k2 in e}
+                    e.clear()
+                    e.update(t)
+                    e["k"] = "lit"
+                    e["v"] = v
+                return
+            k += 1
+    for e in exprs:
+        if e["k"] != "idx" or not e.get("c") or len(e["c"]) != 2:
+            continue
+        k = const_of(e["c"][1])
+        if k is None:
+            continue
+        b = e["c"][0]
+        hops = 0
+        subst = False
+        while b is not None and b >= 0 and hops < 10:
+            be = exprs[b]
+            subst = subst or bool(be.get("subst"))
+            if be["k"] in ("cast", "paren") and be.get("ck", "NoOp") in ("LValueToRValue", "NoOp", "BitCast") and be.get("c"):
+                if be.get("ck") == "BitCast":
+                    break
+                b = be["c"][0]
+            else:
+                break
+            hops += 1
+        be = exprs[b]
+        if not subst or be["k"] != "bin" or be.get("op") != "+":
+            continue
+        l, r = be["c"]
+        cl, cr = const_of(l), const_of(r)
+        lt, rt = exprs[l].get("t", ""), exprs[r].get("t", "")
+        if cr is not None and lt.rstrip().endswith("*"):
+            ptr, c = l, cr
+        elif cl is not None and rt.rstrip().endswith("*"):
+            ptr, c = r, cl
+        else:
+            continue
+        if c < 0:
+            continue
+        e["c"] = [ptr, e["c"][1]]
+        set_const(e["c"][1], c + k)
+        n += 1
+    if n:
+        log.add("N10", "%s(): %d subscript(s) `(q + c)[k]` read as `q[c + k]`" % (fd["name"], n))
 
 
 def _subst_addr(exprs, i):
